@@ -177,7 +177,8 @@ def check_indent_loose(ast, indent, strict_heads):
     html = expand(abbr, {'syntax': 'xhtml', 'options': {'output.format': False}})
     html_tree = G.shape(G.parse_markup(html))
     if html_tree != element_shape(forest):
-        return None         # the HTML tree itself is off: C01's business, reported there
+        return 'expand(%r, syntax=xhtml): the HTML reference tree is not the tree the abbreviation denotes (a C01 failure; ' \
+               'the comparison of C15 is void): %s; output %r' % (abbr, G.first_difference(element_shape(forest), html_tree), html)
     texts = set()
 
     def collect(fr):
